@@ -99,7 +99,7 @@ def handle (c : Case) : Verdict :=
              s!"bl={one (beforeLast cs s sep rev)} al={one (afterLast cs s sep rev)}"
     -- the bytes the separator denotes, independent of the overload form
     let sb := if form == "char" then [sepBytes.headD 0] else if form == "null" then [] else if form == "cstr" then Spec.Slice.cString sepBytes else sepBytes
-    let wants := [("bf", Spec.Slice.beforeFirst ci s sb), ("af", Spec.Slice.afterFirst ci s sb), ("bl", Spec.Slice.beforeLast ci s sb), ("al", Spec.Slice.afterLast ci s sb)]
+    let wants := [("bf", Spec.Slice.beforeFirst cs s sb), ("af", Spec.Slice.afterFirst cs s sb), ("bl", Spec.Slice.beforeLast cs s sb), ("al", Spec.Slice.afterLast cs s sb)]
     let (sp, why) : Bool × String :=
       match c.obs with
       | "ok" :: rest =>
@@ -117,7 +117,7 @@ def handle (c : Case) : Verdict :=
           | _ => (false, "malformed observation")) (true, "")
       | _ => (false, "did not return")
     { corr := m == obs, spec := sp, why, model := m, nontrivial := !s.isEmpty && !sb.isEmpty,
-      branch := s!"ba.{form}.{if ci then "ci" else "cs"}." ++ (if Spec.Slice.occurs ci s sb then "occurs" else "absent") }
+      branch := s!"ba.{form}.{if ci then "ci" else "cs"}." ++ (if Spec.Slice.occurs cs s sb then "occurs" else "absent") }
   | _ => { corr := false, spec := true, why := "unknown op", model := "?" }
 
 end Driver.Slice
